@@ -238,6 +238,9 @@ def run_cli(case, proj, st, res):
         if got.get(name) != want:
             res.violation(classify(case, name, variant), "gwf status shows %s as %s, expected %s" % (name, got.get(name), want), got=got, want=st, variant=variant)
     seq0 = sim.seq()
+    want0 = sorted(n for n, s in st.items() if s == "shouldrun")
+    if case["hashing"] and len(want0) >= 2 and case["shape_seeds"][0] % 2 == 0:
+        return run_cli_partial(case, proj, st, res, sim, env, variant, want0)
     r2 = cli.gwf(proj.root, ["run"], env)
     if r2.rc != 0:
         res.violation("crash", "gwf run failed on a valid workflow", **cli.crash_witness(r2))
@@ -297,3 +300,67 @@ def run_cli(case, proj, st, res):
         got4 = dict(cli.parse_status(r4.out)).get(victim["name"])
         if r4.rc != 0 or got4 != "shouldrun":
             res.violation("completed-after-rejected-submission", "hashing on: the edited script of %s was never accepted by the scheduler (submission rejected) but the target is shown as %s" % (victim["name"], got4))
+
+
+def run_cli_partial(case, proj, st, res, sim, env, variant, want0):
+    """"unchanged since it was last SUBMITTED" when only part of a run was accepted: the scheduler rejects the
+    k-th submission (k >= 2) of the run, the accepted jobs are executed, and every accepted target must then be
+    decided by files + its recorded script exactly like after a complete run."""
+    import random as _r
+
+    from .. import scenario
+
+    rr = _r.Random(case["shape_seeds"][0])
+    k = rr.randint(2, len(want0))
+    seq0 = sim.seq()
+    sim.set_faults([{"cmd": "sbatch", "nth": k, "kind": rr.choice(["exit1", "stderr_error", "garbage"])}])
+    r2 = cli.gwf(proj.root, ["run"], env)
+    sim.set_faults([])
+    jobs = sim.jobs()
+    accepted = [jobs[s["job"]]["name"] for s in sim.submissions(seq0)]
+    if r2.crashed or r2.rc == 0 or len(accepted) != k - 1 or not set(accepted) <= set(want0):
+        res.violation("status-mismatch", "run with the %d-th sbatch rejected: rc %s, accepted %s (expected %d of %s)" % (k, r2.rc, accepted, k - 1, want0), **cli.crash_witness(r2))
+        return
+    mts = [dict(t, wd=proj.root) for t in case["dag"]["targets"]]
+    by = {t["name"]: t for t in mts}
+    for _ in range(100):
+        run_, act = sorted(sim.runnable()), sorted(sim.running())
+        if not run_ and not act:
+            break
+        for j in run_:
+            sim.start(j)
+        for j in sorted(sim.running()):
+            scenario.create_outputs(by[sim.jobs()[j]["name"]])
+            sim.finish(j, 0)
+    if sim.pending():
+        return
+    deps, _, _ = model.dependency_relation(mts)
+    mtime = {}
+    for p_ in scenario.all_paths(mts):
+        try:
+            mtime[p_] = os.stat(p_).st_mtime_ns
+        except FileNotFoundError:
+            mtime[p_] = None
+    recs = {}
+    for t in mts:
+        r = case["records"][t["name"]]
+        recs[t["name"]] = model.sha1(t["spec"]) if (r == "same" or t["name"] in accepted) else ("0" * 40 if r == "diff" else None)
+    backend = dict(case["backend"])
+    for n in accepted:
+        backend[n] = "completed"
+    want = model.status_table(mts, deps, backend, mtime, True, recs)
+    r3 = cli.gwf(proj.root, ["status"], env)
+    got = dict(cli.parse_status(r3.out))
+    res.mon("partial_runs_checked")
+    res.obs("partial_run", {"rejected_position": k, "accepted": accepted, "gwf_status_after_jobs_ran": got, "oracle": want, "spec_hashes": proj.state_files().get("spec-hashes.json")})
+    for name, w in want.items():
+        res.mon("cli_status_rows")
+        if r3.rc != 0 or got.get(name) != w:
+            res.violation(
+                "accepted-script-forgotten" if name in accepted else "status-mismatch",
+                "the %d-th submission of the run was rejected; accepted %s ran to completion; gwf status shows %s as %s, expected %s" % (k, accepted, name, got.get(name), w),
+                got=got,
+                want=want,
+                spec_hashes=proj.state_files().get("spec-hashes.json"),
+            )
+            return
